@@ -206,6 +206,11 @@ class Engine:
                 return T.ival(x.t)
             if not self.entails(st, z3.Or(T.is_VInt(x.t), T.is_VBool(x.t))):
                 self.assume_note(f"{fr.fn_key}: {what} assumed int (a TypeError on other types is not modelled)")
+                probe = st.fork()
+                probe.assume(T.is_VInt(x.t))
+                if not self.feasible(probe):
+                    # the value is known NOT to be an int on this path: assuming it were would silently make the path vacuous
+                    raise Unsupported(f"{what} is used as an int but is known not to be one")
                 st.assume(T.is_VInt(x.t))
                 return T.ival(x.t)
             if self.entails(st, T.is_VInt(x.t)):
@@ -227,6 +232,26 @@ class Engine:
                 return "real", T.rval(x.t)
             return "int", self.as_int(x, fr, what)
         raise Unsupported(f"numeric use of {x.k}")
+
+    def num_pair(self, a, b, fr):
+        """numeric views of two operands of one arithmetic / comparison operation.  A dynamic value whose numeric kind is not known is
+        NOT assumed to be an int when the other operand is real-valued: it is read as the real number it denotes (int, bool or float),
+        under the recorded assumption that it is a number at all."""
+        def known_real(x):
+            return x.k == "real" or (x.k == "V" and self.entails(fr.st, T.is_VReal(x.t)))
+
+        def unknown(x):
+            return x.k == "V" and not fr.spec and not self.entails(fr.st, z3.Or(T.is_VInt(x.t), T.is_VBool(x.t))) and not self.entails(fr.st, T.is_VReal(x.t))
+
+        def as_real(x):
+            t = x.t
+            self.assume_note(f"{fr.fn_key}: operand assumed numeric (a TypeError on other types is not modelled)")
+            fr.st.assume(z3.Or(T.is_VInt(t), T.is_VBool(t), T.is_VReal(t)))
+            return "real", z3.If(T.is_VReal(t), T.rval(t), z3.ToReal(z3.If(T.is_VInt(t), T.ival(t), z3.If(T.bval(t), 1, 0))))
+        ra, rb = known_real(a), known_real(b)
+        na = as_real(a) if (unknown(a) and (rb or unknown(b))) else self.num(a, fr)
+        nb = as_real(b) if (unknown(b) and (ra or unknown(a) or na[0] == "real")) else self.num(b, fr)
+        return na, nb
 
     def as_V(self, x):
         if x.k == "obj":
@@ -645,8 +670,7 @@ class Engine:
                 return self.ext_value("str.repeat", [a, b], fr)
         if isinstance(op, ast.Mod) and a.k == "str":
             return self.ext_value("str.mod", [a, b], fr)
-        ka, ta = self.num(a, fr)
-        kb, tb = self.num(b, fr)
+        (ka, ta), (kb, tb) = self.num_pair(a, b, fr)
         if isinstance(op, ast.Div):
             ta = z3.ToReal(ta) if ka == "int" else ta
             tb = z3.ToReal(tb) if kb == "int" else tb
@@ -764,8 +788,7 @@ class Engine:
         if isinstance(op, (ast.In, ast.NotIn)):
             r = self.contains(b, a, fr)
             return z3.Not(r) if isinstance(op, ast.NotIn) else r
-        ka, ta = self.num(a, fr)
-        kb, tb = self.num(b, fr)
+        (ka, ta), (kb, tb) = self.num_pair(a, b, fr)
         if ka != kb:
             ta = z3.ToReal(ta) if ka == "int" else ta
             tb = z3.ToReal(tb) if kb == "int" else tb
